@@ -6,7 +6,7 @@
 (* is the set of all histories up to MaxHist actions, replayed by harness/c06.py.         *)
 EXTENDS GlomCalls, Json
 
-CONSTANTS PoolSize, MaxHist
+CONSTANTS PoolSize, PoolFrom, MaxHist
 
 T1  == VDict(<< <<VStr("a"), VDict(<< <<VStr("b"), VInt(1)>>, <<VStr("*"), VInt(2)>> >>)>>, <<VStr("*"), VInt(3)>> >>)
 OA  == VObj("A", << <<VStr("a"), VInt(1)>>, <<VStr("b"), VInt(2)>> >>)
@@ -32,6 +32,10 @@ FullPool == <<
   Call(OA, <<>>, 15, P("*", <<"*">>)),                                     \* wildcard over a registrable class (keys / get handlers)
   Call(L12, <<>>, 16, SLast(0)),                                           \* a Vars object bound, assigned into and read ...
   Call(VList(<<>>), <<>>, 16, SLast(0)),                                   \* ... the same spec object on an empty target
+  Call(L12, <<>>, 17, STPlus(VList(<<VInt(9)>>))),                         \* T + [9]: a list operand owned by the target
+  Call(T1, <<>>, 18, SDict(<< <<"p", SRefDef("n", P("a.b", <<"a", "b">>))>> >>)),   \* a spec that defines the Ref name n ...
+  Call(T1, <<>>, 19, SRefUse("n")),                                        \* ... and one that uses n without defining it
+  Call(VList(<<VInt(1), VInt(2), VInt(1)>>), <<>>, 20, SEach("uniq", SProbe("id"))),   \* Iter().unique(): a seen-set per evaluation
   Call(T1, <<>>, 1, P("*", <<"*">>)),                                      \* star-sensitive
   Call(L5, <<>>, 4, SAcc("group", "inc")),                                 \* the same spec object on another target
   Call(T1, <<>>, 10, P("a.*", <<"a", "*">>)),                              \* star-sensitive, 2 segments
@@ -41,7 +45,7 @@ FullPool == <<
                              SFill(STuple(<<SProbe("id"), P("x", <<"x">>), SRead("x")>>))>>)),
   Call(T1, <<>>, 13, SCoal(<<SNest(Call(T1, <<>>, 14, P("a.x", <<"a", "x">>))), P("a.b", <<"a", "b">>)>>, NoDefault))
 >>
-C06Pool == SubSeq(FullPool, 1, PoolSize)
+C06Pool == SubSeq(FullPool, PoolFrom, PoolFrom + PoolSize - 1)
 
 NActs == procs[1].nc + ntog + Len(regs)
 Bound == NActs <= MaxHist
